@@ -138,7 +138,7 @@ def judge_real(exp, kind, want, want2, got, check_kind):
 
 def run(rep, tier, seed):
     cfg = "MC_C13_quick.cfg" if tier == "quick" else "MC_C13_thorough.cfg"
-    t = tlc.run("MC_C13", cfg, workers=16, timeout=3000)
+    t = tlc.run("MC_C13", cfg, workers=16, timeout=3000, xss="64m")
     if t.violations or not t.ok:
         rep.fail("C13/model", "TLC reported a violation of a model-level law: " + "; ".join(t.errors[:3]), {"log": t.log})
     cases = t.cases
@@ -148,7 +148,7 @@ def run(rep, tier, seed):
     log(f"[C13] TLC: {t.generated} states, {len(cases)} cases in {t.wall:.1f}s")
     reqs = [{"id": i, "mode": "session", "stmts": [cs["text"]], "opts": {"arm": True}} for i, cs in enumerate(cases)]
     outs = execpool.run_requests(reqs, nworkers=16, timeout=120)
-    tally = collections.Counter(); forms = collections.Counter(); texts = set()
+    tally = collections.Counter(); forms = collections.Counter(); texts = set(); free_why = collections.Counter()
     for cs, (resp, oc) in zip(cases, outs):
         l = cs["lit"]; text = cs["text"]; sig = cs["sig"]; kind = cs["kind"]
         texts.add(text); forms[l["form"]] += 1
@@ -161,7 +161,7 @@ def run(rep, tier, seed):
         intmant = sig == "C13/Denote/scientific-integer-mantissa"      # one family: not evaluated at all
         if not is_code:
             if must: rep.fail(sig if intmant else sig + "/noparse", f"`{text}` is not read as code ({ev.get('p')} {ev.get('shape')}); it denotes {cs['re']['n']}/{cs['re']['d']}", replay)
-            else: tally["not_code_free"] += 1
+            else: tally["not_code_free"] += 1; free_why[cs["why"]] += 1
             continue
         ok = ev["r"] == "ok"
         if exp == "reject":
@@ -170,7 +170,7 @@ def run(rep, tier, seed):
             continue
         if not ok:
             if must: rep.fail(sig if intmant else sig + "/rejected", f"`{text}` is rejected ({ev.get('class')}: {str(ev.get('msg'))[:80]}) but denotes a value of kind {kind}", replay)
-            else: tally["free_error"] += 1
+            else: tally["free_error"] += 1; free_why[cs["why"]] += 1
             continue
         got = absval.absval(ev["v"])
         if l["form"] == "cpx":
@@ -200,7 +200,7 @@ def run(rep, tier, seed):
                     "exact_matched": tally["exact_ok"], "nearest_float_matched": tally["nearest_ok"],
                     "clamped_as_documented": tally["clamp_ok"], "fraction_to_adjacent_integer": tally["nearint_ok"],
                     "rejects_matched": tally["reject_ok"], "free_outcomes": tally["free_error"] + tally["not_code_free"],
-                    "free_not_read_as_code": tally["not_code_free"], "exhaustive": True,
+                    "free_not_read_as_code": tally["not_code_free"], "free_by_reason": dict(free_why), "exhaustive": True,
                     "rule": "every abstract literal of the bounded MechLiteral model (form x digit strings x underscore placement x exponent "
                             "form x base prefix x kind suffix/annotation x sign; u8/i8/u16/i16 boundaries exactly, wide kinds with small values and "
                             "anchored at Max_k, Min_k, 2^53) rendered to its spelling and evaluated alone; value compared with the model's exact "
